@@ -1,0 +1,85 @@
+//go:build verif
+
+// Contracts for package staged (comment-only; read by /verif/bin/govc, see /verif/DESIGN.md §2.3).
+package staged
+
+//@ // ---- C14: stage strings are rejected or usable
+//@ func ParseStages
+//@   props C14
+//@   modifies nothing
+//@   loop 0 invariant -1 <= rangeindex && rangeindex < len(stageElements) && len(stages) == len(stageElements) && fresh(stages)
+//@   loop 0 invariant forall j int :: 0 <= j && j <= rangeindex ==> stages[j].EndTarget >= 0 && stages[j].StartTarget == 0
+//@   ensures [runnable] result.1 == nil ==> len(result.0) >= 1 && (forall j int :: 0 <= j && j < len(result.0) ==> result.0[j].EndTarget >= 0)
+//@   ensures [rejected] result.1 != nil ==> isnil(result.0)
+//@
+//@ // ---- C10: the calculator's data-structure invariant: targets are chained (each stage starts at the previous
+//@ // stage's end target, the first at 0) and the cursor is in range.
+//@ pred wfCalc(s *RateCalculator) = s != nil && -1 <= s.current && s.current <= len(s.stages) &&
+//@     (len(s.stages) > 0 ==> s.stages[0].StartTarget == 0) &&
+//@     (forall j int :: 0 < j && j < len(s.stages) ==> s.stages[j].StartTarget == s.stages[j - 1].EndTarget)
+//@ pred nonnegTargets(s *RateCalculator) = forall j int :: 0 <= j && j < len(s.stages) ==> s.stages[j].EndTarget >= 0 && s.stages[j].StartTarget >= 0
+//@
+//@ func (*RateCalculator).add
+//@   props C10 C14
+//@   requires wfCalc(s)
+//@   modifies s.stages
+//@   ensures [appended] len(s.stages) == old(len(s.stages)) + 1 && s.stages[old(len(s.stages))].EndTarget == newStage.EndTarget && s.stages[old(len(s.stages))].Duration == newStage.Duration
+//@   ensures [chained] s.stages[old(len(s.stages))].StartTarget == (old(len(s.stages)) == 0 ? 0 : old(s.stages[len(s.stages) - 1].EndTarget))
+//@   ensures [kept] forall j int :: 0 <= j && j < old(len(s.stages)) ==> s.stages[j] == old(s.stages[j])
+//@   ensures [wf] wfCalc(s)
+//@
+//@ func (*RateCalculator).addRange
+//@   props C10 C14
+//@   requires wfCalc(s) && len(s.stages) == 0
+//@   modifies s.stages
+//@   loop 0 invariant -1 <= rangeindex && rangeindex < len(stages) && wfCalc(s) && len(s.stages) == rangeindex + 1 && s.current == old(s.current)
+//@   loop 0 invariant forall j int :: 0 <= j && j <= rangeindex ==> s.stages[j].EndTarget == stages[j].EndTarget && s.stages[j].Duration == stages[j].Duration
+//@   ensures [all] wfCalc(s) && len(s.stages) == len(stages)
+//@   ensures [same] forall j int :: 0 <= j && j < len(stages) ==> s.stages[j].EndTarget == stages[j].EndTarget && s.stages[j].Duration == stages[j].Duration
+//@
+//@ func NewRateCalculator
+//@   props C10 C14
+//@   ensures [wf] wfCalc(result) && fresh(result) && result.current == -1 && len(result.stages) == len(stages)
+//@   ensures [same] forall j int :: 0 <= j && j < len(stages) ==> result.stages[j].EndTarget == stages[j].EndTarget && result.stages[j].Duration == stages[j].Duration
+//@   ensures [start] result.start == (start == nil ? timeZero() : old(deref(start)))
+//@
+//@ // ---- C10: Rate is the piecewise-linear interpolation. Ghost: G10cum = prefix sums of the stage durations
+//@ // (G10cum[0] = 0, G10cum[j+1] = G10cum[j] + duration j; monotone because durations are non-negative),
+//@ // G10T0 = the instant the profile started.
+//@ ghost var G10cum map[int]int
+//@ ghost var G10T0 int
+//@ ghost var G10off int
+//@ pred cumOK(s *RateCalculator) = G10cum[0] == 0 &&
+//@     (forall j int :: 0 <= j && j < len(s.stages) ==> G10cum[j + 1] == G10cum[j] + s.stages[j].Duration && s.stages[j].Duration >= 0 && s.stages[j].Duration <= 4503599627370496) &&
+//@     (forall a int, b int :: 0 <= a && a <= b && b <= len(s.stages) ==> G10cum[a] <= G10cum[b])
+//@ pred smallTargets(s *RateCalculator) = forall j int :: 0 <= j && j < len(s.stages) ==> -2147483648 <= s.stages[j].EndTarget && s.stages[j].EndTarget <= 2147483648 &&
+//@     -2147483648 <= s.stages[j].StartTarget && s.stages[j].StartTarget <= 2147483648
+//@
+//@ func (*RateCalculator).MaxDuration
+//@   props C10
+//@   modifies nothing
+//@   loop 0 invariant -1 <= rangeindex && rangeindex < len(s.stages) && (cumOK(s) ==> maxDuration == G10cum[rangeindex + 1])
+//@   ensures [sum] cumOK(s) ==> result == G10cum[len(s.stages)]
+//@
+//@ func (*RateCalculator).Rate
+//@   props C10 C14
+//@   fp-monotone
+//@   requires wfCalc(s) && cumOK(s) && smallTargets(s)
+//@   requires s.current >= 0 ==> (s.start == G10T0 + G10cum[s.current] && now >= s.start)
+//@   requires (s.current < 0 && s.start != timeZero()) ==> now >= s.start
+//@   requires now - (s.current < 0 && s.start == timeZero() ? now : (s.current < 0 ? s.start : G10T0)) <= 4503599627370496
+//@   ghost at entry : G10T0 = (s.current >= 0 ? G10T0 : (s.start == timeZero() ? now : s.start))
+//@   modifies s.current, s.start, G10T0, G10off
+//@   loop 0 invariant 0 <= s.current && s.current <= len(s.stages) && s.start == G10T0 + G10cum[s.current] && now >= s.start
+//@   ghost at exit : G10off = now - s.start
+//@   ensures [cursor] 0 <= s.current && s.current <= len(s.stages) && s.start == G10T0 + G10cum[s.current] && now >= s.start && wfCalc(s)
+//@   ensures [elapsed] now - G10T0 >= G10cum[len(s.stages)] ==> result == 0
+//@   ensures [in-stage] now - G10T0 < G10cum[len(s.stages)] ==> s.current < len(s.stages) && G10cum[s.current] <= now - G10T0 && now - G10T0 < G10cum[s.current + 1]
+//@   ensures [between-targets] s.current < len(s.stages) ==> min(s.stages[s.current].StartTarget, s.stages[s.current].EndTarget) <= result && result <= max(s.stages[s.current].StartTarget, s.stages[s.current].EndTarget)
+//@
+//@ func CalculateStagedRate
+//@   props C14 C10
+//@   requires GJclaim == 1 ==> (jitterArg == 0.0 || (jitterConsts(jitterArg) && GJin == GJout))
+//@   modifies nothing
+//@   ensures [runnable] result.1 == nil ==> result.0 != nil && result.0.Rate != nil && result.0.IterationDuration > 0
+//@   ensures [rejected] result.1 != nil ==> result.0 == nil
